@@ -20,3 +20,20 @@ class SetDataBounded(NativeBounded):
 
 
 BOUNDED.append(SetDataBounded())
+
+
+class InputBufferBounded(NativeBounded):
+    property_ids = ["C03"]
+    module = "contracts.dataplane_native"
+    func = "bounded_input_buffer"
+    what = "mosaik.simmanager.TimedInputBuffer (add + get_input over sequences of operations)"
+
+
+class AsyncGetDataBounded(NativeBounded):
+    property_ids = ["C16"]
+    module = "contracts.dataplane_native"
+    func = "bounded_async_get_data"
+    what = "mosaik.simmanager.MosaikRemote.get_data"
+
+
+BOUNDED += [InputBufferBounded(), AsyncGetDataBounded()]
